@@ -6,6 +6,7 @@ package engines
 // (who holds which key, what is registered, which roots are valid).
 
 import (
+	"context"
 	"crypto"
 	"crypto/ed25519"
 	"crypto/tls"
@@ -75,6 +76,8 @@ type advWorld struct {
 	s       *world.Server
 	lw      *world.LW
 	lwBase  *world.LW // same server, listener with a base TLS configuration
+	ownSeq  atomic.Int64
+	lwOwn   *world.LW // same server, listener configured with the application's own fetch / generate functions (which delegate to the library's)
 	A, B, R *world.Node
 	U       *world.Keys
 	foreign struct {
@@ -173,12 +176,25 @@ func newAdvWorld(name, storage string, wrap ...bool) *advWorld {
 	if err != nil {
 		panic(err)
 	}
+	// the documented extension point: the application's own functions around the library's
+	w.lwOwn, err = world.NewLW(w.s, world.LWCfg{
+		FetchFn: func(ctx context.Context, st nodeenrollment.Storage, req *types.FetchNodeCredentialsRequest, opt ...nodeenrollment.Option) (*types.FetchNodeCredentialsResponse, error) {
+			return registration.FetchNodeCredentials(ctx, st, req, opt...)
+		},
+		GenFn: func(ctx context.Context, st nodeenrollment.Storage, req *types.GenerateServerCertificatesRequest, opt ...nodeenrollment.Option) (*types.GenerateServerCertificatesResponse, error) {
+			return nodetls.GenerateServerCertificates(ctx, st, req, opt...)
+		},
+	})
+	if err != nil {
+		panic(err)
+	}
 	return w
 }
 
 func (w *advWorld) close() {
 	w.lw.Close()
 	w.lwBase.Close()
+	w.lwOwn.Close()
 	w.s.Close()
 }
 
@@ -488,6 +504,9 @@ func (w *advWorld) runProduct(c *engine.Ctx, ac advCase) {
 	lw := w.lw
 	if ac.BaseTLS {
 		lw = w.lwBase
+	} else if w.ownSeq.Add(1)%3 == 0 {
+		lw = w.lwOwn
+		c.R.Count("product_cases_on_a_listener_with_the_applications_own_functions", 1)
 	}
 	rec, res, ok := runClient(c, lw, cs)
 	if !ok {
